@@ -115,8 +115,10 @@ public:
     }
   }
 
+  // Taken by value: the error may live in the completion operation's state,
+  // which is destroyed below before the error is forwarded.
   template <typename Error>
-  void set_error(Error&& error) && noexcept {
+  void set_error(Error error) && noexcept {
     auto* const op = op_;
 
     using completion_value_op_t =
@@ -305,7 +307,9 @@ public:
 
   template(typename Error)                  //
       (requires receiver<Receiver, Error>)  //
-      void set_error(Error&& error) && noexcept {
+      void set_error(Error error) && noexcept {
+    // `error` is taken by value: it may live in the completion operation's
+    // state, which is destroyed before the error is forwarded.
     auto* const op = op_;
     unifex::deactivate_union_member(op->completionDoneOp_);
     unifex::set_error(
